@@ -1,5 +1,5 @@
 """registry.py — property id -> check function(prop, tier, seed, replay) -> exit code"""
-import props_map, props_ext, props_conv, props_dbg, props_sub, props_c14, props_acc, props_pool, props_arr, props_thr, props_lay, props_cst, props_ded
+import props_map, props_ext, props_conv, props_dbg, props_sub, props_c14, props_acc, props_pool, props_arr, props_thr, props_lay, props_cst, props_ded, props_cfg
 
 CHECKS = {}
 for p in ("C01", "C02", "C05", "C07", "C13"):
@@ -17,3 +17,4 @@ CHECKS["C19"] = lambda prop, tier, seed, replay: props_thr.run_property(prop, ti
 CHECKS["C18"] = lambda prop, tier, seed, replay: props_lay.run_property(prop, tier, seed, replay=replay)
 CHECKS["C16"] = lambda prop, tier, seed, replay: props_cst.run_property(prop, tier, seed, replay=replay)
 CHECKS["C17"] = lambda prop, tier, seed, replay: props_ded.run_property(prop, tier, seed, replay=replay)
+CHECKS["C15"] = lambda prop, tier, seed, replay: props_cfg.run_property(prop, tier, seed, replay=replay)
